@@ -156,6 +156,9 @@ class Facts:
             src = self.parent_fn(b["path"])
             for c in b["calls"]:
                 for cand in (c["resolved"], c["callee"]):
+                    if cand and "{closure#" in cand:
+                        # calling one's own closure is not recursion (closure bodies are folded into the parent)
+                        continue
                     if cand and self.parent_fn(cand) in local:
                         g[src].add(self.parent_fn(cand))
                         break
